@@ -464,7 +464,9 @@ def _dpoly(p, name):
 NP_FUNCS = {"np.log": log, "numpy.log": log, "log": log, "math.log": log,
             "np.exp": exp, "numpy.exp": exp, "math.exp": exp,
             "gammaln": lgamma, "scipy.special.gammaln": lgamma, "special.gammaln": lgamma, "math.lgamma": lgamma,
-            "np.sqrt": sqrt, "numpy.sqrt": sqrt, "math.sqrt": sqrt}
+            "np.sqrt": sqrt, "numpy.sqrt": sqrt, "math.sqrt": sqrt,
+            # over the reals (the algebra has no integer dtype; integer truncation of np.reciprocal is decided by the concrete-array rules)
+            "np.reciprocal": lambda x: Rat.const(1) / lift(x), "np.square": lambda x: lift(x) * lift(x), "np.negative": lambda x: -lift(x)}
 IDENTITY_METHODS = {"ravel", "flatten", "copy", "squeeze", "astype", "tolist"}
 IDENTITY_FUNCS = {"np.array", "np.asarray", "np.ravel", "np.copy", "float", "np.float64", "np.nan_to_num",
                   "check_array_type", "np.atleast_1d"}
